@@ -71,7 +71,7 @@ Apply(d, o) ==
       [] o.op = "set" -> SetKey(d, K(o.ki), o.v)
       [] o.op = "opassign" -> OpAssign(d, K(o.ki), o.f, o.v)
       [] o.op = "opassign_dflt" -> OpAssignDflt(d, K(o.ki), o.v0, o.f, o.v)
-      [] o.op = "remove" -> Remove(d, K(o.ki))
+      [] o.op = "remove" -> RemoveKey(d, K(o.ki))
       [] o.op = "addkey" -> Res(AddKey(d, K(o.ki)), "ok", VNull)
       [] o.op = "discard" -> Res(Discard(d, K(o.ki)), "ok", VNull)
       [] o.op = "insert" -> Res(Insert(d, K(o.ki), o.v), "ok", VNull)
